@@ -198,6 +198,71 @@ def phase_wall_clock(chk, eng, fens):
     return cases, worst_ratio, lat, max(lats), first_misses
 
 
+
+# ----------------------------------------------------------------------------- the real `go` arm of the UCI loop
+START = {"w": "rnbqkbnr/pppppppp/8/8/8/8/PPPPPPPP/RNBQKBNR w KQkq - 0 1",
+         "b": "rnbqkbnr/pppppppp/8/8/8/8/PPPPPPPP/RNBQKBNR b KQkq - 0 1"}
+
+
+def ns_limbs(ns):
+    ms = ns // 1000000
+    return [-1, -1] if ms > 2000000000 else [ms, ns % 1000000]
+
+
+def engine_go_events(eng_hooks, evs, out):
+    """Sends the situations of the harness events `evs` to the hooks build of the real binary as UCI text
+    (setoption Move Overhead, position, go, stop) and rewrites each event with what the binary's own `go` arm
+    computed (hook `note_go`): kind of time control, limits, and what the parser had made of the text."""
+    log_path = out + ".golimits"
+    if os.path.exists(log_path):
+        os.remove(log_path)
+    env = dict(os.environ)
+    env["TCHERAN_VERIF_GOLIMITS"] = log_path
+    p = subprocess.Popen([eng_hooks, "uci"], stdin=subprocess.PIPE, stdout=subprocess.PIPE, stderr=subprocess.DEVNULL,
+                         env=env, text=True, bufsize=1)
+
+    def wait(prefix):
+        while True:
+            l = p.stdout.readline()
+            if not l:
+                return False
+            if l.startswith(prefix):
+                return True
+    sent = []
+    try:
+        for e in evs:
+            p.stdin.write("setoption name Move Overhead value %d\nposition fen %s\n%s\nstop\n" % (e["ovh"], START[e["side"]], e["go"]))
+            p.stdin.flush()
+            if not wait("bestmove"):
+                break
+            sent.append(e)
+        p.stdin.write("quit\n")
+        p.stdin.flush()
+    except (BrokenPipeError, OSError):
+        pass
+    try:
+        p.wait(10)
+    except subprocess.TimeoutExpired:
+        p.kill()
+        p.wait()
+    notes = vlib.read_ndjson(log_path) if os.path.exists(log_path) else []
+    if len(sent) != len(evs) or len(notes) != len(evs):
+        raise ToolError("real go arm: %d situations sent, %d answered, %d hook lines (is the note_go hook compiled in?)"
+                        % (len(evs), len(sent), len(notes)))
+    res = []
+    for e, n in zip(evs, notes):
+        if n["stm"] != e["side"]:
+            raise ToolError("real go arm: side to move %s for situation %s" % (n["stm"], e))
+        own, inc = ("wtime", "winc") if e["side"] == "w" else ("btime", "binc")
+        ms = lambda v: -1 if v < 0 else (-2 if v // 1000000 > 2000000000 else v // 1000000)
+        r = dict(e)
+        r.update({"src": "engine", "tc": n["tc"], "soft": ns_limbs(n["soft"]), "hard": ns_limbs(n["hard"]), "out": "ok", "msg": "",
+                  "parsed": [ms(n[own]), ms(n[inc]), n["mtg"], ms(n["mt"]), n["ovh"]]})
+        res.append(r)
+    vlib.write_ndjson(out, res)
+    os.remove(log_path)
+    return res
+
 # ----------------------------------------------------------------------------- helpers
 def trace(path, what):
     r = vlib.tlc("Trace_TimeAlloc", env={"TRACE": path}, timeout=3000, xmx="2g")
@@ -375,6 +440,40 @@ def main():
     traces = vlib.pmap(lambda c: trace(c[0], "lim"), chunks, n=14)
     log("[C14] %d trace files validated, %.1fs" % (len(traces), time.time() - tm))
 
+    # ------------------------------------------------------------------ phase E: the binary's own `go` arm
+    # The harness copies the statements of the `go` arm; here the same situations go through the real UCI loop of
+    # the hooks build (checked arithmetic) as text, and the limits its TimeStrategy computed are judged by the same
+    # clauses.  Limits that differ from the harness's for the same text mean the copy no longer represents the code.
+    eng_hooks = vlib.build_engine(profile="dev", hooks=True)
+    pool = [e for e in vlib.read_ndjson(os.path.join(od, "ev_extra_grid_dev.ndjson"))
+            if e["rng"] == 2 and e["out"] == "ok" and not (e["has"][2] == 1 and e["mtg"] == 0)]
+    n_e = 600 if q else 6000
+    head = pool[:len(cases)]                                   # the wall-clock situations
+    rest = pool[len(cases):]
+    step = max(1, len(rest) // max(1, n_e - len(head)))
+    picked = head + rest[chk.seed % step::step][:n_e - len(head)]
+    parts = [picked[i::8] for i in range(8)]
+    eouts = vlib.pmap(lambda a: engine_go_events(eng_hooks, a[1], os.path.join(od, "ev_engine_%d.ndjson" % a[0])),
+                      list(enumerate(parts)), n=8)
+    etraces = vlib.pmap(lambda i: trace(os.path.join(od, "ev_engine_%d.ndjson" % i), "lim"), list(range(8)), n=8)
+    eng_events = eng_differs = 0
+    for i, (r, part, got) in enumerate(zip(etraces, parts, eouts)):
+        cp = os.path.join(od, "ev_engine_%d.ndjson" % i)
+        traces.append(r)
+        chunks.append((cp, True, "extra"))
+        for h, g in zip(part, got):
+            eng_events += 1
+            if (h["soft"], h["hard"], h["tc"], h["parsed"]) != (g["soft"], g["hard"], g["tc"], g["parsed"]):
+                eng_differs += 1
+                chk.drift.append({"what": "go-arm-of-the-binary-differs-from-the-harness-copy",
+                                  "detail": {"go": h["go"], "side": h["side"], "ovh": h["ovh"],
+                                             "harness": [h["tc"], h["parsed"], h["soft"], h["hard"]],
+                                             "binary": [g["tc"], g["parsed"], g["soft"], g["hard"]]}, "source": cp})
+    if eng_events == 0:
+        raise ToolError("no situation went through the real go arm")
+    log("[C14] %d situations through the real go arm of the UCI loop (%d differ from the harness copy), %.1fs"
+        % (eng_events, eng_differs, time.time() - tm))
+
     # ------------------------------------------------------------------ collect
     states = transitions = 0
     for kind, r, grid, _ in stage1:
@@ -460,6 +559,7 @@ def main():
         "in_domain": tot["in_domain"], "cap_binding": tot["cap_binds"], "pv_only_range": tot["pv_only"],
         "crash_probes_beyond_32_bit": tot["crash_only"],
         "build_profiles_byte_identical": identical,
+        "situations_through_the_real_go_arm": eng_events, "go_arm_differs_from_harness_copy": eng_differs,
         "cv_beyond_single_tolerance": tot["cv_beyond_single_tolerance"],
         "out_of_domain_crashes": len(ood),
         "out_of_domain_crash_kinds": ["%s: %s" % k for k in ood_keys],
